@@ -196,7 +196,8 @@ def _run(spec, tier, seed, tmp, t0):
     outp = os.path.join(tmp, "out.json")
     workers = int(os.environ.get("VERIF_WORKERS", "16"))
     r = subprocess.run([os.path.join(VERIF, "bin", "symx"), "-repo", REPO, "-overlay", ovp, "-jobs", jp, "-out", outp,
-                        "-workers", str(workers)], env=GOENV, capture_output=True, text=True)
+                        "-workers", str(workers), "-deadline", os.environ.get("VERIF_DEADLINE", "900" if tier == "quick" else "7200")],
+                       env=GOENV, capture_output=True, text=True)
     if r.returncode != 0:
         return finish(spec, tier, seed, t0, inconclusive=["symx failed: " + (r.stderr or r.stdout)[-3000:]])
     out = json.load(open(outp))
@@ -205,6 +206,8 @@ def _run(spec, tier, seed, tmp, t0):
         shutil.copy(outp, os.environ["VERIF_KEEP"])
 
     inconclusive = []
+    if out.get("expired"):
+        inconclusive.append("wall-clock limit reached: unfinished jobs were abandoned (nothing is claimed for them)")
     for res in results:
         if res.get("engine_error"):
             inconclusive.append("%s: engine error: %s" % (res["id"], res["engine_error"]))
